@@ -89,8 +89,7 @@ def stage_lean(res, pid, thorough):
         cov["axioms_per_theorem"] = per
     cov["discharged"] = discharged
     tb = ["Lean 4.33.0 kernel", "axioms: " + ", ".join(summarize_axioms(axioms_used)) if axioms_used else "no axioms"]
-    if any(T.allowed_extra_axiom(a) for a in axioms_used):
-        tb.append("bv_decide (bit-vector lemmas only): Lean.ofReduceBool / Lean.trustCompiler + one `_native.bv_decide.ax_*` per call; trusts the bundled CaDiCaL + the natively compiled LRAT checker")
+    tb.append("no native_decide / bv_decide / Lean.ofReduceBool: the audit rejects every axiom other than propext, Classical.choice, Quot.sound")
     cov["trusted_base"] = tb + spec.get("trusted", [])
     if thorough and module and not broken:
         ok2, l2 = hh.leanchecker(module)
